@@ -322,14 +322,38 @@ def child_main(argv: list[str]) -> int:
 # parent side: watchdog
 
 
-def tree_cpu(pid: int) -> float:
-    """CPU seconds of a process and its (reaped) children"""
+def _stat(pid: int):
     try:
-        f = Path(f"/proc/{pid}/stat").read_text().rsplit(")", 1)[1].split()
-        tick = os.sysconf("SC_CLK_TCK")
-        return (int(f[11]) + int(f[12]) + int(f[13]) + int(f[14])) / tick
+        return Path(f"/proc/{pid}/stat").read_text().rsplit(")", 1)[1].split()
     except Exception:  # noqa: BLE001
+        return None
+
+
+def own_cpu(pid: int) -> float:
+    """CPU seconds the process itself has used (a busy loop shows up here)"""
+    f = _stat(pid)
+    if f is None:
         return -1.0
+    return (int(f[11]) + int(f[12])) / os.sysconf("SC_CLK_TCK")
+
+
+def session_cpu(sid: int) -> float:
+    """CPU seconds used by every live process of the session plus what their reaped children used: work done anywhere
+    below the child (a batch script being run by the fake sbatch) shows up here"""
+    tick = os.sysconf("SC_CLK_TCK")
+    tot = 0
+    for d in os.listdir("/proc"):
+        if not d.isdigit():
+            continue
+        f = _stat(int(d))
+        if f is None or int(f[3]) != sid:
+            continue
+        tot += int(f[11]) + int(f[12]) + int(f[13]) + int(f[14])
+    return tot / tick
+
+
+def tree_cpu(pid: int) -> float:
+    return own_cpu(pid)
 
 
 class Runner:
@@ -399,11 +423,15 @@ class Runner:
         return read_calls(Path(wd) / "sched")
 
     def watch(self, h):
-        """wait for the child; returns the id of the case it got stuck in (child killed) or None when it exited"""
+        """wait for the child; returns the id of the case it got stuck in (child killed) or None when it exited.
+        Stuck = the child itself burns CPU (> cpu_limit) without any scheduler call and without finishing the case (busy
+        loop), or nothing at all happens below it (no scheduler call, no CPU used in its session) for wall_limit seconds."""
+        pid = h["proc"].pid
         cur = None
-        cur_cpu0 = 0.0
-        cur_t0 = time.time()
+        cpu0 = 0.0
+        t_act = time.time()
         last_calls = -1
+        last_sess = -1.0
         t_start = time.time()
         while True:
             if h["proc"].poll() is not None:
@@ -412,7 +440,7 @@ class Runner:
                 prog = json.loads((h["dir"] / "progress.json").read_text())
             except Exception:  # noqa: BLE001
                 prog = None
-            cpu = tree_cpu(h["proc"].pid)
+            cpu = own_cpu(pid)
             if prog is None:
                 if time.time() - t_start > self.wall_limit * 6:
                     self.kill(h)
@@ -420,17 +448,21 @@ class Runner:
             else:
                 if cur != prog["id"] or prog["state"] == "done":
                     cur = prog["id"]
-                    cur_cpu0, cur_t0, last_calls = cpu, time.time(), -1
+                    cpu0, t_act, last_calls = cpu, time.time(), -1
                 if prog["state"] == "running":
                     wd = next((c["workdir"] for c in h["cases"] if c["id"] == cur), None)
                     ncalls = len(list((Path(wd) / "sched" / "log").glob("*.argv"))) if wd else 0
                     if ncalls != last_calls:  # scheduler traffic is progress
                         last_calls = ncalls
-                        cur_cpu0, cur_t0 = cpu, time.time()
-                    if (cpu >= 0 and cpu - cur_cpu0 > self.cpu_limit) or time.time() - cur_t0 > self.wall_limit:
+                        cpu0, t_act = cpu, time.time()
+                    sess = session_cpu(pid)
+                    if sess - last_sess > 0.3:  # somebody below the child is working
+                        last_sess = sess
+                        t_act = time.time()
+                    if (cpu >= 0 and cpu - cpu0 > self.cpu_limit) or time.time() - t_act > self.wall_limit:
                         self.kill(h)
                         return cur
-            time.sleep(0.1)
+            time.sleep(0.2)
 
     def collect(self, h) -> dict:
         res = self.results(h)
